@@ -178,8 +178,10 @@ func (v objectValidator) validateTypeRules(objectNode *schema.ObjectNode, value 
 // example, a string type with rules for the keys it accepts as a value. The type
 // may be a reference or a list of alternatives (@k = @k2, @k = @a | @b, the rules
 // "type": "@k2" and "or"): the key is accepted when one of them accepts it.
-// visiting holds the names on the current path, a type list may name a type being
-// resolved.
+// visiting holds the names of the type lists walked through already, each is
+// walked through once: a type list may name a type being resolved, and a type
+// which did not accept the key when it was reached along one path does not accept
+// it when it is reached along another.
 func (v objectValidator) keyMatchesType(name string, value jbytes.Bytes, visiting map[string]struct{}) bool {
 	typ, ok := v.rootSchema.TypesList()[name]
 	if !ok {
@@ -189,7 +191,6 @@ func (v objectValidator) keyMatchesType(name string, value jbytes.Bytes, visitin
 
 	if names, ok := alternativeTypeNames(node); ok {
 		visiting[name] = struct{}{}
-		defer delete(visiting, name)
 		for _, tn := range names {
 			if _, ok := visiting[tn]; ok {
 				continue
